@@ -64,13 +64,23 @@ def rule_sections(ctx, res):
                     cur = c[2:-3].decode()
                     written.append(cur)
         if isinstance(st, ast.For) and cur is not None:
-            it = ast.unparse(st.iter).replace(' ', '')
+            it_e = st.iter
+            if isinstance(it_e, ast.Name):
+                from .. import norm as _nn
+                it_e = _nn.reaching_value(st, it_e.id) or \
+                    _resolve_local(w.node, it_e)
+            it = ast.unparse(it_e).replace(' ', '')
             if it.startswith('game.') and '.to_lines(' in it:
                 writer_attr[cur] = it.split('.')[1]
         if isinstance(st, ast.If) and 'game.label' in ast.unparse(st.test):
             for s2 in st.body:
                 if isinstance(s2, ast.For):
-                    it = ast.unparse(s2.iter).replace(' ', '')
+                    it_e = s2.iter
+                    if isinstance(it_e, ast.Name):
+                        from .. import norm as _nn
+                        it_e = _nn.reaching_value(s2, it_e.id) or \
+                            _resolve_local(w.node, it_e)
+                    it = ast.unparse(it_e).replace(' ', '')
                     if it.startswith('game.') and '.to_lines(' in it:
                         writer_attr['label'] = it.split('.')[1]
     r = model.func(P8 + ':P8Formatter.from_file')
@@ -87,6 +97,21 @@ def rule_sections(ctx, res):
                         isinstance(s2.value, ast.Call):
                     fn = ast.unparse(s2.value.func)
                     accepted[name] = (s2.targets[0].attr, fn)
+    # table-driven form: if section in <dict of classes>: setattr(game,
+    # section, <dict>[section].from_lines(...))
+    from .. import norm as _n
+    from ..consteval import ClassRef
+    for n in walk_own(r.node):
+        if isinstance(n, ast.If) and isinstance(n.test, ast.Compare) and \
+                len(n.test.ops) == 1 and isinstance(n.test.ops[0], ast.In) \
+                and ast.unparse(n.test.left) == 'section':
+            d = _n.fold(ctx, r, n.test.comparators[0])
+            body_src = ' '.join(ast.unparse(x) for x in n.body)
+            if isinstance(d, dict) and 'setattr(' in body_src and \
+                    '[section].from_lines(' in body_src.replace(' ', ''):
+                for k, v in d.items():
+                    if isinstance(k, str) and isinstance(v, ClassRef):
+                        accepted[k] = (k, v.name + '.from_lines')
     res.tables['p8_sections_written'] = written
     res.check(sorted(written) == sorted(accepted) and len(written) == 7,
               'R-C03-sections', w.qual, 'sections written == sections read',
@@ -98,10 +123,12 @@ def rule_sections(ctx, res):
     cls_of_attr = {}
     for n in walk_own(g.node):
         if isinstance(n, ast.Assign) and \
-                isinstance(n.targets[0], ast.Attribute) and \
-                isinstance(n.value, ast.Call):
-            fn = ast.unparse(n.value.func)
-            cls_of_attr[n.targets[0].attr] = fn.split('.')[0].split('(')[0]
+                isinstance(n.targets[0], ast.Attribute):
+            v = _resolve_local(g.node, n.value)
+            if isinstance(v, ast.Call):
+                fn = ast.unparse(v.func)
+                cls_of_attr[n.targets[0].attr] = \
+                    fn.split('.')[0].split('(')[0]
     for sec in sorted(set(written) & set(accepted)):
         wattr = writer_attr.get(sec, 'lua' if sec == 'lua' else None)
         rattr, rfn = accepted[sec]
@@ -146,8 +173,9 @@ def rule_sections(ctx, res):
               '{!r}'.format(fmt), 'the version line {!r} is not matched by '
               'the reader\'s pattern'.format(fmt), w.loc)
     stores = any(isinstance(n, ast.Assign) and
-                 ast.unparse(n).replace(' ', '') ==
-                 'new_game.version=data.version' for n in walk_own(r.node))
+                 ast.unparse(n.targets[0]) == 'new_game.version' and
+                 ast.unparse(_n.subst_locals(r.node, n.value)) ==
+                 'data.version' for n in walk_own(r.node))
     res.check(stores, 'R-C03-sections', r.qual,
               'parsed version stored on the game', '',
               'the version number read from the file is dropped', r.loc)
